@@ -4,7 +4,7 @@ import numpy as np
 from harness import lib
 
 RULE = ("behaviours = every pipeline of 2 operation instances (49 instances: every listed operation with selector-resolved arguments) on every "
-        "start topology of the configured sizes, plus TLC-randomised pipelines of 6-10 instances on four larger trees; after every operation an "
+        "start topology of the configured sizes, plus TLC-randomised pipelines of 6-10 instances on four larger trees; one operation in four is carried out twice with the first result overwritten in place in between; after every operation an "
         "attribute is written through a node handle of the result or of a source; the projected heap after every step is validated by "
         "Trace_TreeOps; non-trivial = pipeline has at least two different operations; distinct by (start tree, pipeline)")
 
@@ -132,6 +132,9 @@ def execute(c):
     for k, inst in enumerate(c["pipe"]):
         try:
             res = apply_op(inst, objs, usable)
+            if res is not None and (k + lib.vid(c)) % 4 == 1:
+                lib.scribble(res[3])                     # the owner of a first result overwrites it in place ...
+                res = apply_op(inst, objs, usable)       # ... and the same call is made again: it is this result that is recorded
         except Exception as ex:
             steps.append(["error", type(ex).__name__, inst[0]])
             break
